@@ -5,7 +5,7 @@
    Entries are Gaussian rationals.  numpy's kernels are given by specification functions in index form
    (elementwise map, sums of products); np.linalg.inv and Python's scalar ** are ORACLES passed as
    function arguments (recorded from the implementation by the harness, constrained by explicit
-   hypotheses in the theorems). *)
+   hypotheses in the theorems).  np.linalg.matrix_rank (the singularity test of __pow__) is an oracle too. *)
 From Coq Require Import ZArith QArith List Bool Arith.
 Import ListNotations.
 Open Scope Q_scope.
@@ -141,6 +141,8 @@ Definition collapse (k : kind) (sh : shape) (d : list C) : val :=
 (* ---------------------------------------------------------------- oracles *)
 (* np.linalg.inv on an n x n matrix: None = LinAlgError("Singular matrix") *)
 Definition inv_oracle := kind -> nat -> list C -> option (list C).
+(* np.linalg.matrix_rank(self) < n on an n x n matrix (the singularity test MathArray.__pow__ runs before inverting) *)
+Definition rank_oracle := kind -> nat -> list C -> bool.
 (* Python's number ** number (robust_pow on scalars) *)
 Definition spow_oracle := kind -> C -> kind -> C -> outcome.
 
@@ -166,6 +168,7 @@ Definition mapM {A B} (f : A -> B + err) : list A -> list B + err :=
 
 Section Ops.
   Variable negpow : bool.          (* MathArray._negative_powers *)
+  Variable rk : rank_oracle.
   Variable inv : inv_oracle.
   Variable spow : spow_oracle.
 
@@ -261,6 +264,7 @@ Section Ops.
             let run ke e :=
               if integer_like ke e then
                 if (exponent_Z e <? 0)%Z && negb negpow then Raise ENegPowDisabled
+                else if (exponent_Z e <? 0)%Z && rk ks n ds then Raise ESingular     (* matrix_rank(self) < n *)
                 else matrix_power ks n ds (exponent_Z e)
               else Raise ENonIntPow in
             match other with
@@ -434,3 +438,5 @@ Definition exact_inv : inv_oracle := fun _ n d =>
   else let b := map (fun x => cdiv x dt) (adjugate n d) in
        if list_ceqb (matmat n n n d b) (identity n) && list_ceqb (matmat n n n b d) (identity n)
        then Some b else None.
+Definition exact_rank_deficient : rank_oracle := fun k n d =>
+  match exact_inv k n d with None => true | Some _ => false end.
